@@ -271,6 +271,17 @@ func c05Sessions(tier string) [][]string {
 	add("func g(){i = \"w\"}", "for i = 3 {g(); println(i)}")
 	add("func f(n){for i = n {n = [i]}; n}", "f(k0)")
 	add("func f(n){n := 1.5; n}", "f(a)")
+	// sixth round (reported by a sub-agent after the fifth): the same register twice as a map key, a loop variable
+	// named like a top level function, self as a parameter, loop variables after a recovered panic
+	add("func f(n){{n: println(\"k1\"), n: println(\"k2\")}}", "f(a)")
+	add("func f(n){v = 0; m = {n: (v = v + 1), n: (v = v + 10)}; [m, v]}", "f(a)")
+	add("for i = 2 {v = 0; m = {i: (v = v + 1), i: (v = v + 10)}; println(m, v)}")
+	add("func f(n){{n: 1, 2: n, n + 1: n}}", "f(a)")
+	add("func i(){42}; func g(){i()}", "println(g())", "for i = 2 {println(catch(g()))}", "catch(g())")
+	add("func f(self){self}", "f(a)")
+	add("for self = 3 {println(self)}")
+	add("func rr(n){rr(n + 1)}", "for i = 3 {if i == 1 {rr(0)}}", "i")
+	add("func rr(n){rr(n + 1)}", "i = 10; for i = 3 {for j = 2 {if i == k1 {rr(0)}}}", "[i, j]")
 	return out
 }
 
@@ -287,6 +298,9 @@ func c05ExtSessions() [][]string {
 		{"func f(n){eval(\"func(){n}()\")}", "f(a)"},
 		{"func f(n){eval(\"n=1.5\"); n}", "f(a)"},
 		{"func f(n, m){unjson(\"[n, m]\")}", "f(a, b)"},
+		{"func f(int){int}", "f(a)"},
+		{"for int = 2 {println(int)}"},
+		{"func f(){for sprintf = 2 {println(sprintf)}; sprintf}", "f()"},
 	}
 }
 
